@@ -277,6 +277,16 @@ def gen_scenario(rng, sid, dialect_p=0.3, wide=False) -> Scenario:
                     defaults[fn] = ("int", rng.choice([0, 7])) if ft[0] == "int" else ("str", rng.choice(["", "dflt"]))
                 elif ft[0] == "opt" and rng.random() < 0.5:
                     defaults[fn] = ("none",)
+                elif not wide and rng.random() < 0.4:
+                    # non-literal defaults: a bound constant (date) and default_factory results (list / dict)
+                    if ft[0] == "date":
+                        defaults[fn] = ("date", gen_date(rng))
+                    elif ft[0] == "list":
+                        defaults[fn] = ("list", [("int", 1), ("int", 2)]) if ft[1] == ("int",) and rng.random() < 0.5 else ("list", [])
+                    elif ft[0] == "dict":
+                        defaults[fn] = ("dict", [])
+        if not wide and defaults and "omit_default" not in extra and rng.random() < 0.5:
+            extra["omit_default"] = "True"      # a class with defaults usually asks for them to be left out
         if sc.dialect is not None or extra or sc.flags:
             own_config = True
         else:
@@ -466,9 +476,25 @@ def cls_src(sc: Scenario, c: Cls, nm=None) -> str:
     body = ""
     for (fn, alias, ft) in c.own_fields:
         dflt = c.defaults.get(fn)
-        dsrc = None if dflt is None else ("None" if dflt[0] == "none" else repr(dflt[1]))
+        dsrc, dkw = None, "default"
+        if dflt is not None:
+            if dflt[0] == "none":
+                dsrc = "None"
+            elif dflt[0] in ("int", "str"):
+                dsrc = repr(dflt[1])
+            elif dflt[0] == "date":
+                y, mo, dd = dflt[1].split("-")
+                dsrc = f"date({int(y)}, {int(mo)}, {int(dd)})"
+            elif dflt[0] == "list":
+                dsrc, dkw = "lambda: [" + ", ".join(repr(x[1]) for x in dflt[1]) + "]", "default_factory"
+            elif dflt[0] == "dict":
+                dsrc, dkw = "dict", "default_factory"
+            else:
+                raise ValueError(dflt)
         if alias:
-            body += f"    {fn}: {py_ty(ft, nm)} = field(metadata={{'alias': {alias!r}}}" + (f", default={dsrc}" if dsrc is not None else "") + ")\n"
+            body += f"    {fn}: {py_ty(ft, nm)} = field(metadata={{'alias': {alias!r}}}" + (f", {dkw}={dsrc}" if dsrc is not None else "") + ")\n"
+        elif dsrc is not None and dkw == "default_factory":
+            body += f"    {fn}: {py_ty(ft, nm)} = field(default_factory={dsrc})\n"
         elif dsrc is not None:
             body += f"    {fn}: {py_ty(ft, nm)} = {dsrc}\n"
         else:
